@@ -94,6 +94,7 @@ inductive CondOp where
   | setState (flag : Nat) (st : Option Bool)     -- SetNoNesting / SetNoPadding / SetParen / SetReadOnly
   | setEncapOne (a : Text)
   | setEncapPair (a b : Text)
+  | setEncapNone                                  -- SetEncap() without arguments: every pair is dropped
   | setErr (e : Option Nat)
   deriving Repr
 
@@ -111,6 +112,7 @@ def apply (c : Cnd) : CondOp → Cnd
   | .setState f st => { c with cfg := c.cfg.setState f st }
   | .setEncapOne a => if c.readOnly then c else if encFree c.cfg.enc [a] then { c with cfg := { c.cfg with enc := c.cfg.enc ++ [[a]] } } else c
   | .setEncapPair a b => if c.readOnly then c else if encFree c.cfg.enc [a, b] then { c with cfg := { c.cfg with enc := c.cfg.enc ++ [[a, b]] } } else c
+  | .setEncapNone => if c.readOnly then c else { c with cfg := { c.cfg with enc := [] } }
   | .setErr e => { c with cfg := { c.cfg with err := e } }
 
 def run (c : Cnd) (ops : List CondOp) : Cnd := ops.foldl apply c
